@@ -127,6 +127,14 @@ func genG09(repo string, w *Out) error {
 		return err
 	}
 
+	// the relay's own HPACK decoder and encoder must accept any table size an endpoint may negotiate
+	unb := strings.Contains(nb, "ret.decoder.SetAllowedMaxDynamicTableSize(math.MaxUint32)") &&
+		strings.Contains(nb, "ret.encoder.SetMaxDynamicTableSizeLimit(math.MaxUint32)")
+	if !unb && !(strings.Contains(nb, "SetAllowedMaxDynamicTableSize(") && strings.Contains(nb, "SetMaxDynamicTableSizeLimit(")) {
+		return fmt.Errorf("newRelay: the HPACK table limits are not set in a way the model knows: %q", nb)
+	}
+	w.DefBool("hpack_limits_unbounded", unb)
+
 	// ---- emitEligibleFrames: gate and debits
 	eb, efd, err := g09Body(rf, "outputBuffer.emitEligibleFrames")
 	if err != nil {
